@@ -42,12 +42,15 @@ def floors(tier):
 
 
 def mesh_names(tier):
-    q = ["tiny", "G1", "G2", "G3", "G5", "G7s", "hex22", "hex23", "hex33", "hex43", "hex34s", "rd10", "rd40", "ann39", "ann410", "G4"]
+    # idx<dtype>:<n>x<m> = a structured triangulation whose `elements` are given in a narrow integer dtype (what a mesh generator or a
+    # file may hand over) with enough sites that products of site indices do not fit that dtype
+    q = ["tiny", "G1", "G2", "G3", "G5", "G7s", "hex22", "hex23", "hex33", "hex43", "hex34s", "rd10", "rd40", "ann39", "ann410", "G4", "idxuint8:5x4", "idxint16:14x15", "idxint32:4x3"]
     if tier == "quick":
         return q
     t = [f"{g}:{d}:{s}" for g in ("G1", "G2", "G3", "G4", "G5", "G6", "G7") for d in ("coarse", "fine") for s in (0, 3)]
     t += [f"hex{n}{m}" for n in range(2, 5) for m in range(2, 5)] + ["hex34s", "hex44s"]
     t += [f"rd{n}_{s}" for n in (10, 40, 120) for s in (1, 2, 3)] + ["ann39", "ann410", "ann412", "tiny"]
+    t += ["idxuint8:5x4", "idxint8:4x3", "idxint16:14x15", "idxuint16:16x17", "idxint32:4x3", "idxuint32:6x5"]
     return t
 
 
@@ -72,6 +75,13 @@ def get_mesh(name):
 
     if name == "tiny":
         return drivers.tiny(0, terminals=True).mesh
+    if name.startswith("idx"):
+        dt, shape = name[3:].split(":")
+        n, m = (int(v) for v in shape.split("x"))
+        p, t = zoo.hex_lattice(n, m, shear=0.2)
+        if len(p) - 1 > np.iinfo(dt).max:
+            raise RuntimeError("harness: site indices do not fit the requested dtype")
+        return Mesh.from_triangulation(p, np.asarray(t).astype(dt))
     if ":" in name:
         g, d, s = name.split(":")
         return zoo.device(g, density=d, smooth=int(s)).mesh
